@@ -196,6 +196,16 @@ class Prop(common.PropertyCheck):
                 toks.append([first] + body)
             yield {'k': 'dict', 'd': d, 'toks': toks, 'tail': [], 'supp': rng.random() < 0.4, 'lead': rng.random() < 0.5}
 
+        # two files of one template: identical primary TEXT (fixed-width offsets), different supplemental keywords, loaded one after the other
+        for i in range(self.budget(8, 40)):
+            d = [47, 124, 33, 12][i % 4]
+            base = {'version': ['FCS3.0', 'FCS3.1'][i % 2], 'delim': chr(d), 'datatype': 'I', 'byteord': '1,2,3,4', 'widths': [8], 'ranges': [256],
+                    'events': [[1], [2]], 'extra': [['K1', 'v1'], ['TUBE', 'primary']], 'analysis': None, 'raw_analysis': None, 'order': ['TDS', 'TSD', 'STD'][i % 3], 'text_trailer': '', 'pad_data': 0}
+            first = dict(base, stext=[['GATE', 'P%d' % i], ['TUBE', 'A%02d' % i]])
+            second = dict(base, stext=[['WELL', 'Q%d' % i], ['NOTE', 'B%02d' % i]])
+            assert fcswriter.build(first)[1]['segs']['T'] == fcswriter.build(second)[1]['segs']['T']
+            yield {'k': 'file', 'spec': second, 'prelude': first}
+            yield {'k': 'file', 'spec': first, 'prelude': second}
         # segments whose declared end lies 1, 2 or 5 bytes beyond the end of the buffer (the last bytes are missing): refused, whatever the remaining bytes look like
         for i in range(self.budget(60, 600)):
             d = [47, 124, 33, 12, 92][i % 5]
@@ -254,6 +264,19 @@ class Prop(common.PropertyCheck):
             r['written'] = list(segb)
             return r
         if case['k'] == 'file':
+            if case.get('prelude'):
+                # another file of the same template (byte-identical primary TEXT, other supplemental keywords) is loaded just before
+                pdata, _ = fcswriter.build(case['prelude'])
+                fd, ppath = tempfile.mkstemp(suffix='.fcs', dir=self.tmpdir())
+                os.write(fd, pdata); os.close(fd)
+                try:
+                    with warnings.catch_warnings():
+                        warnings.simplefilter('ignore')
+                        FlowCal.io.FCSFile(ppath)
+                except Exception:
+                    pass
+                finally:
+                    os.unlink(ppath)
             data, layout = fcswriter.build(case['spec'])
             fd, path = tempfile.mkstemp(suffix='.fcs', dir=self.tmpdir())
             os.write(fd, data); os.close(fd)
